@@ -212,7 +212,9 @@ PROPS = {
                 "conflicting accesses is made by repository code count; deadlock part (conc-sim): seeded API-level schedules over utils/topics (publish, subscribe, next, close incl. close "
                 "while a publish to that subscriber is in flight, failing Handle callback), utils/climit (release from any goroutine, repeatedly) and snapshot/storage (GetGlobal before, "
                 "after and concurrent with SetGlobal) with real goroutines outside the bubble; after every schedule whose subscriptions were all drained or closed and tokens released, no "
-                "actor may remain blocked (goroutine stacks are inspected) or have panicked; non-trivial = the run executed at least two concurrent actors; distinct = distinct SHA-256 "
+                "actor may remain blocked (goroutine stacks are inspected) or have panicked; cancellation part: in all fleet runs of this check graceful context cancels are generated harness "
+                "actions (10-25 permille of steps, at whatever yield the node's goroutines are parked, also during start-up and under storage faults); after one, the sync loop may pass at most 150 "
+                "further yield points and may not stay blocked outside a yield for 300 scheduler steps and 30 simulated seconds before Sync has returned; only C17 oracles count in these runs; non-trivial = the run executed at least two concurrent actors; distinct = distinct SHA-256 "
                 "of the event log",
         "assumptions": FLEET_ASSUME + ["the race detector only sees the interleavings executed; interleavings finer than the yield points are covered only as far as the detector's happens-before analysis generalises them"],
     },
@@ -314,7 +316,8 @@ MANIFEST_TEXT = {
     "C17": {"text": "Two parts. Races: fleet profiles run in the -race build with the scheduler's own hand-off hidden from the detector, so every run is a happens-before race check of the "
                     "interleaving it executed (reports count only if repository code makes one of the conflicting accesses). Deadlocks/wedges: seeded API-level schedules over topics, "
                     "climit and the global storage with real goroutines, quiescence detected from goroutine dumps; a goroutine still blocked after everything was closed, cancelled "
-                    "and released is reported with the states of the goroutines involved. Cancellation: every fleet run ends by cancelling every instance at an arbitrary yield.",
+                    "and released is reported with the states of the goroutines involved. Cancellation: graceful context cancels are generated at arbitrary yields of running instances "
+                    "(incl. start-up, under storage faults); Sync must return before its loop has passed 150 further yield points.",
             "note": SIM_NOTE + " The race part covers executed interleavings only; conc-sim uses wall-clock polling of goroutine states outside the fake clock.",
             "technique": "deterministic simulation in the -race build (scheduler hand-off hidden from the detector) + API-level schedule simulation with goroutine-dump quiescence"},
     "C15": {"text": "Names travel the real path: a real syncer with an arbitrary raw instance name uploads at simulated instants, an independent parser and ParseName must agree on the "
